@@ -78,6 +78,9 @@ def check_case(ctx, case, prop="C01", nontrivial=None, extra_labels=(), check_ar
         if nt:
             ctx.nontrivial((src, repr(args), repr(gl)))
         inp = "args=%r globals=%r" % (args, gl)
+        if ran.timed_out:
+            ctx.discard("vm-wall-clock-guard (inconclusive)")
+            continue
         if ran.diverged:
             ctx.fail("diverges", "source terminates (reference: %d steps, value %r) but the compiled code ran > %d VM steps\n%s" % (
                 exp.steps, exp.value, ran.steps, inp), case)
